@@ -131,7 +131,9 @@ class Problem:
         self.n = len(self.t)
         self.n_offsets = len(sv) - 1
         self.t_ref = spec.get("t_ref")
-        if self.t_ref is None:
+        if spec.get("t_ref_false") and len(sv) == 1:
+            self.t_ref = 0.0   # t_ref=False: phases and trend are referred to BMJD 0
+        elif self.t_ref is None:
             self.t_ref = float(self.t.min())
         pr = spec["prior"]
         self.poly_trend = pr["poly_trend"]
@@ -413,6 +415,8 @@ def tol_of(ev):
 
 def ratio_of(ev, value):
     """|value - closed form| / tolerance, computing the expensive part of the tolerance only when needed."""
+    if ev.get("singular"):
+        return 0.0  # no reference value exists: not judged
     d = abs(value - ev["ll"])
     if d <= ev["tol_floor"]:
         return d / ev["tol_floor"]
@@ -424,12 +428,23 @@ def evaluate(prob, row, flags=(), solver="twobody", want_posterior=False, full_t
     M = prob.design(row, solver=solver, flags=flags)
     mu, Lam = prob.linear_prior(row, flags)
     var = prob.svar(row, flags)
-    ll, chi2, logdet = ln_marginal(prob.y, var, M, mu, Lam)
-    try:
-        ll_ld, _, _ = ln_marginal(prob.y, var, M, mu, Lam, longdouble=True)
-    except np.linalg.LinAlgError:
-        ll_ld = ll
     kappa = conditioning(var, M, Lam)
+    try:
+        ll_ld, chi2_ld, logdet_ld = ln_marginal(prob.y, var, M, mu, Lam, longdouble=True)
+    except np.linalg.LinAlgError:
+        ll_ld = None
+    try:
+        ll, chi2, logdet = ln_marginal(prob.y, var, M, mu, Lam)
+    except np.linalg.LinAlgError:
+        ll = None
+    if ll is None or ll_ld is None or not np.isfinite(ll) or not np.isfinite(ll_ld):
+        # numerically singular configuration (prior variance / data variance beyond what float64 - or even
+        # longdouble - can factor): no reference value; every comparison with it is "not judged"
+        return {"ll": float("nan"), "ll64": float("nan"), "chi2": float("nan"), "logdet": float("nan"), "kappa": kappa,
+                "mu": mu, "Lam": Lam, "M": M, "var": var, "y": prob.y, "n": prob.n, "tol_floor": float("inf"),
+                "tol": float("inf"), "tol_parts": {"condA": float("inf"), "condB": float("inf"), "chi2_C": float("nan"),
+                                                    "route_dev": float("inf")}, "singular": True,
+                "a": np.full(len(mu), np.nan), "A": np.full((len(mu), len(mu)), np.nan)}
     out = {"ll": ll_ld, "ll64": ll, "chi2": chi2, "logdet": logdet, "kappa": kappa, "mu": mu, "Lam": Lam,
            "M": M, "var": var, "y": prob.y, "n": prob.n,
            # always a lower bound of the full tolerance: a value within tol_floor needs no further work
@@ -443,6 +458,8 @@ def evaluate(prob, row, flags=(), solver="twobody", want_posterior=False, full_t
 
 def posterior_ratio(ev, a_code, A_code):
     """max over entries of |code - closed form| / tolerance for the conditional mean and covariance."""
+    if ev.get("singular"):
+        return 0.0
     a, A = ev["a"], ev["A"]
     tol_of(ev)
     condA = ev["tol_parts"]["condA"]
